@@ -38,6 +38,8 @@ Act(e) ==
     CASE e.op = "write"      -> Write(e.p, e.v)
       [] e.op = "relinquish" -> Relinquish(e.p)
       [] e.op = "bad"        -> IF e.v = "idx0" THEN BadIndex0 ELSE BadWrite(e.p, e.v)
+      [] e.op = "obs"        -> Observe(TRUE)
+      [] e.op = "unobs"      -> Observe(FALSE)
       [] e.op = "expire"     -> HoldExpire
       [] e.op = "tick"       -> Tick(e.p)
       [] OTHER               -> FALSE
